@@ -53,3 +53,34 @@ PREDICATES.update({
     "C10-F3": c10_f3_inf_state,
     "C10-F5": c10_f5_nat_not_filled,
 })
+
+
+# ---- C08 (partial-axis reductions) ---------------------------------------------------------------
+
+
+def _c08_axes(case):
+    if "by_ndim" not in case or "shape" not in case:
+        return None
+    nd = len(case["shape"])
+    ax = case.get("axis")
+    if ax is None:
+        return tuple(range(nd - case["by_ndim"], nd))
+    ax = [ax] if isinstance(ax, int) else list(ax)
+    if any(not (-nd <= a < nd) for a in ax):
+        return None
+    out = tuple(a % nd for a in ax)
+    return out if len(set(out)) == len(out) else None
+
+
+def c08_f3_first_last_int_offset(case, detail):
+    ax = _c08_axes(case)
+    if ax is None or case.get("chunks") is None:
+        return False
+    if case.get("func") not in ("nanfirst", "nanlast") or str(case.get("dtype", "")).startswith("float"):
+        return False
+    if not (len(ax) < case["by_ndim"]):
+        return False
+    return any(len(case["chunks"][a]) > 1 for a in ax) and detail.startswith("slot ")
+
+
+PREDICATES.update({"C08-F3": c08_f3_first_last_int_offset})
